@@ -305,6 +305,29 @@ def oracle_conv(spec, m=None, exact=False):
             return f"radius kernel is not a non-negative kernel summing to one: min {w.min()!r}, sum {w.sum()!r}", None
         if not all(np.abs(w - np.flip(w, axis=a)).max() <= 1e-15 for a in range(3)):
             return "radius kernel is not mirror-symmetric", None
+        # the radius kernel is THE cone: weight max(0, r - d) at every element offset (distances in element sizes for absolute
+        # units), normalised, offsets limited to one domain width per axis; evaluated here offset by offset, independent of the
+        # code's half-width arithmetic
+        nelx, nely, nelz = spec["dom"]
+        es_ = [1.0, 1.0, 1.0] if spec.get("rel", True) else list(spec.get("es") or [1.0, 1.0, 1.0])
+        r_ = float(spec["radius"])
+        lim = [nelx, nely, nelz]
+        ref = {}
+        for a in range(-lim[0], lim[0] + 1):
+            for b in range(-lim[1], lim[1] + 1):
+                for c in range(-lim[2], lim[2] + 1):
+                    v = r_ - float(np.sqrt((a * es_[0]) ** 2 + (b * es_[1]) ** 2 + (c * es_[2]) ** 2))
+                    if v > 0:
+                        ref[(a, b, c)] = v
+        tot = sum(ref.values())
+        hw = [k // 2 for k in w.shape]
+        if tot > 0:
+            for (a, b, c), v in ref.items():
+                inside = abs(a) <= hw[0] and abs(b) <= hw[1] and abs(c) <= hw[2]
+                got = float(w[a + hw[0], b + hw[1], c + hw[2]]) if inside else 0.0
+                if abs(got - v / tot) > 1e-9:
+                    return (f"radius kernel is not the normalised cone max(0, r - d): weight at element offset {(a, b, c)} is {got!r}, "
+                            f"the cone gives {v / tot!r} (radius {r_!r}, element sizes {es_}, kernel shape {list(w.shape)})"), None
     why = oracle_common(m, spec, y, tol, nonneg_sum_one, no_const)
     if why:
         return why, None
@@ -755,6 +778,26 @@ def search(ctx, disagreements):
         if len([f for f in found if not f["finding_key"]]) >= 3 or seen > 30:
             break
     if not [f for f in found if not f["finding_key"]]:
+        # neighbours of the disagreeing cases: the same case with the element sizes permuted / absolute units / a 3-D grid
+        import itertools
+        tried = 0
+        for dct in disagreements:
+            spec = (dct or {}).get("case") or {}
+            if not isinstance(spec, dict) or spec.get("kind") != "conv" or spec.get("radius") is None or "es" not in spec:
+                continue
+            for es in itertools.permutations(spec["es"]):
+                for dom in ([spec["dom"]] + ([[spec["dom"][0], spec["dom"][1], 3]] if spec["dom"][2] in (0, 1) else [])):
+                    nel = dom[0] * dom[1] * max(dom[2], 1)
+                    sp = dict(spec, es=list(es), rel=False, dom=dom)
+                    if nel != len(spec["x"]):
+                        sp["x"], sp["g"] = gen_field(ctx.rng, nel), gen_field(ctx.rng, nel)
+                    tried += 1
+                    why, fkey = _oracle_spec(sp)
+                    if why:
+                        found.append(_witness(why, fkey, sp))
+            if tried > 120 or len([f for f in found if not f["finding_key"]]) >= 3:
+                break
+    if not [f for f in found if not f["finding_key"]]:
         # sweep: small grids, all-symmetric / mixed modes, radius and dyadic kernels
         rng = ctx.rng
         for t in range(150):
@@ -764,8 +807,10 @@ def search(ctx, disagreements):
                 spec = {"kind": "dens", "dom": dom, "radius": rng.uniform(0.3, 6.0), "nonpadding": None,
                         "x": gen_field(rng, nel), "g": gen_field(rng, nel)}
             elif t % 3 == 1:
-                spec = {"kind": "conv", "dom": dom, "es": [1.0, 1.0, 1.0], "bc": [gen_mode(rng) for _ in range(6)], "weights": None,
-                        "radius": rng.uniform(0.3, 5.0), "rel": True, "x": gen_field(rng, nel), "g": gen_field(rng, nel), "ov": []}
+                unit = t % 2 == 0
+                spec = {"kind": "conv", "dom": dom, "es": [1.0, 1.0, 1.0] if unit else [rng.choice([0.5, 0.7, 1.0, 1.3, 2.0]) for _ in range(3)],
+                        "bc": [gen_mode(rng) for _ in range(6)], "weights": None,
+                        "radius": rng.uniform(0.3, 5.0), "rel": unit, "x": gen_field(rng, nel), "g": gen_field(rng, nel), "ov": []}
             else:
                 w = gen_kernel(rng, dom, ["general", "sumone", "mirror"][t % 9 // 3])
                 spec = {"kind": "conv", "dom": dom, "bc": ['symmetric'] * 6 if t % 2 else [gen_mode(rng) for _ in range(6)],
